@@ -417,9 +417,50 @@ pub fn run(tier: Tier, totals: &mut Totals) {
         into_totals(&r, totals);
     }
     totals.extra.insert("search".into(), json!(levels));
+    scale(tier, totals);
+}
+
+/// Depth and size far beyond the search bound: a scope stack hundreds of maps deep and a map with
+/// hundreds of variables, as scripts whose results are computed here.
+fn scale(tier: Tier, totals: &mut Totals) {
+    let sizes: Vec<u64> = tier.pick(vec![10, 70, 300], vec![10, 70, 300, 1000, 3000]);
+    for &d in &sizes {
+        // d pushes, each level marks itself; d pops must come back through the marks in reverse order
+        let text = format!(
+            "sum = set 0\nmark = set 0\ni = set 0\nwhile less_than ${{i}} {d}\ni = calc ${{i}} + 1\nscope_push_stack --copy i sum\nmark = set ${{i}}\nonly${{i}} = set here\nend\nwhile greater_than ${{i}} 0\nsum = calc ${{sum}} + ${{mark}}\ni = calc ${{i}} - 1\nscope_pop_stack --copy i sum\nend\nfinal = set ${{mark}}\nextra = scope_pop_stack",
+            d = d
+        );
+        crate::util::scale_case_totals(
+            totals,
+            &format!("scope-stack depth {}", d),
+            &text,
+            &[("sum", Some((d * (d + 1) / 2).to_string())), ("final", Some("0".into())), ("i", Some("0".into())), ("extra", Some("false".into())), ("only1", None)],
+        );
+        // d variables written and read back by name, then removed by prefix
+        let text = format!(
+            "i = set 0\nwhile less_than ${{i}} {d}\ni = calc ${{i}} + 1\nset_by_name v${{i}} ${{i}}\nend\nsum = set 0\nj = set 0\nwhile less_than ${{j}} {d}\nj = calc ${{j}} + 1\nx = get_by_name v${{j}}\nsum = calc ${{sum}} + ${{x}}\nend\nfirst = is_defined v1\nlast = is_defined v{d}\nunset_all_vars --prefix v\nfirst_after = is_defined v1\nlast_after = is_defined v{d}\nkept = is_defined sum",
+            d = d
+        );
+        crate::util::scale_case_totals(
+            totals,
+            &format!("many-variables count {}", d),
+            &text,
+            &[
+                ("sum", Some((d * (d + 1) / 2).to_string())),
+                ("first", Some("true".into())),
+                ("last", Some("true".into())),
+                ("first_after", Some("false".into())),
+                ("last_after", Some("false".into())),
+                ("kept", Some("true".into())),
+            ],
+        );
+    }
 }
 
 pub fn replay(case: &Value) -> Result<String, String> {
+    if let Some(r) = crate::util::scale_replay(case) {
+        return r;
+    }
     // histories are recorded as debug strings of ops; re-run them through a fresh system by name
     let hist: Vec<String> = case["history"]
         .as_array()
@@ -462,7 +503,7 @@ pub fn replay(case: &Value) -> Result<String, String> {
     Err("history uses operations outside the alphabet".into())
 }
 
-pub const RULE: &str = "explicit-state breadth-first search from the empty context: every operation of the alphabet (set via a one-line script; set_by_name with/without value, get_by_name, is_defined, unset with 1-2 names, get_all_var_names, unset_all_vars plain and --prefix, clear_scope, scope_push_stack / scope_pop_stack without --copy and with every --copy list of 0..2 names) is applied to every reachable state; pushes are disabled at the stack-depth bound so the space is finite and searched to a fixpoint. Each transition runs the real command, compares its output, the complete variable map, the saved maps inside the scope stack and the handle table with the model (map + stack of maps). States are de-duplicated on the implementation's own state (variables and the whole state map). evaluations = transitions; distinct_nontrivial = distinct states";
+pub const RULE: &str = "explicit-state breadth-first search from the empty context: every operation of the alphabet (set via a one-line script; set_by_name with/without value, get_by_name, is_defined, unset with 1-2 names, get_all_var_names, unset_all_vars plain and --prefix, clear_scope, scope_push_stack / scope_pop_stack without --copy and with every --copy list of 0..2 names) is applied to every reachable state; pushes are disabled at the stack-depth bound so the space is finite and searched to a fixpoint. Each transition runs the real command, compares its output, the complete variable map, the saved maps inside the scope stack and the handle table with the model (map + stack of maps). States are de-duplicated on the implementation's own state (variables and the whole state map). evaluations = transitions; distinct_nontrivial = distinct states. Scale cases (scripts, results computed in Rust): a scope stack 10/70/300 (thorough 1000, 3000) levels deep pushed and popped with --copy, a pop on the emptied stack; 10..300 variables written and read by name and removed by prefix";
 pub const ASSUMPTIONS: &[&str] = &["names from {a,b,p::a} (thorough also {a,ab,p::a,p}), values from {1, empty, 'x y'}", "for a name that is undefined when copied on pop the model follows the implementation between 'restored' and 'undefined'", "operations other than `name = set value` are run through run_instruction (outputs observed directly, no output variable)"];
 pub const EXHAUSTIVE: bool = true;
 pub const WALL_CAP_S: (u64, u64) = (50, 1500);
